@@ -409,17 +409,15 @@ Proof.
    [left; exists v; split; auto|right; intros (u & Hu & _ & [H|[_ H]]); inversion Hu; subst; congruence]).
 Qed.
 
-Lemma inv2_frame g g' : Inv2 g -> g_vs g' = g_vs g -> g_real g' = g_real g ->
+Lemma inv2_frame_act g g' : Inv2 g -> g_vs g' = g_vs g -> g_real g' = g_real g ->
   g_rocache g' = g_rocache g -> g_rcts g' = g_rcts g -> g_final g' = g_final g ->
-  (forall j, startedb g' j = startedb g j) -> (forall j, finishedb g' j = finishedb g j) ->
+  (forall j a, active_w g j a -> active_w g' j a) -> (forall j, finishedb g' j = finishedb g j) ->
   (forall j v t w, g_vs g j = Some v -> nth_error txs j = Some t -> v_done v = false ->
      shadow_ok g j t w -> exists w', shadow_ok g' j t w') ->
   Inv2 g'.
 Proof.
-  intros [V1 V2 V3 V4 V5 V6 V7 V8 V9] Hvs Hr Hc Hrc Hf Hs Hfi Hsh.
+  intros [V1 V2 V3 V4 V5 V6 V7 V8 V9] Hvs Hr Hc Hrc Hf Act Hfi Hsh.
   assert (SD : forall m, is_done g' m = is_done g m) by (intro; unfold is_done; now rewrite Hvs).
-  assert (Act : forall j a, active_w g' j a <-> active_w g j a).
-  { intros. unfold active_w. rewrite Hvs, Hs. tauto. }
   constructor.
   - apply (v_real_mono g g'); auto. intros j a [T|T]; [left; now rewrite SD|right; now apply Act].
   - intros j v t Hv Ht Hnd. rewrite Hvs in Hv. destruct (V2 j v t Hv Ht Hnd) as [w Sw]. eauto.
@@ -430,6 +428,17 @@ Proof.
   - intros j r. rewrite Hrc. apply V7.
   - intros j. rewrite Hfi, Hrc. apply V8.
   - intros w. rewrite Hf. apply V9.
+Qed.
+
+Lemma inv2_frame g g' : Inv2 g -> g_vs g' = g_vs g -> g_real g' = g_real g ->
+  g_rocache g' = g_rocache g -> g_rcts g' = g_rcts g -> g_final g' = g_final g ->
+  (forall j, startedb g' j = startedb g j) -> (forall j, finishedb g' j = finishedb g j) ->
+  (forall j v t w, g_vs g j = Some v -> nth_error txs j = Some t -> v_done v = false ->
+     shadow_ok g j t w -> exists w', shadow_ok g' j t w') ->
+  Inv2 g'.
+Proof.
+  intros V Hvs Hr Hc Hrc Hf Hs Hfi Hsh. eapply inv2_frame_act; eauto.
+  intros j a. unfold active_w. rewrite Hvs, Hs. tauto.
 Qed.
 
 (* a shadow carries over when the remaining program and the active set of j are the same *)
@@ -470,4 +479,731 @@ Proof.
   - intro a. apply active_set_work. apply Hs.
 Qed.
 
+Lemma cur_prog_run g i t p : g_work g i = Some (WRun p) -> cur_prog g i t = p.
+Proof. unfold cur_prog. now intros ->. Qed.
+
+Lemma phase_flags g i p : g_work g i = Some (WRun p) -> startedb g i = true /\ finishedb g i = false.
+Proof. unfold startedb, finishedb. now intros ->. Qed.
+
+Lemma read_inv2 g i a k g1 h : Inv1 g -> Inv2 g -> g_work g i = Some (WRun (Read a k)) ->
+  access g i a = Some (g1, h) ->
+  Inv2 (set_work g1 i (WRun (k (match h with HLive => g_real g1 a | HRO x => x end)))).
+Proof.
+  intros I V Hw A. destruct (phase_flags _ _ _ Hw) as [St Fi].
+  destruct (access_inv1 _ _ _ _ _ _ I A) as (I1 & SD & VO).
+  pose proof (access_inv2 _ _ _ _ _ I V A) as V1.
+  assert (Hw1 : g_work g1 i = Some (WRun (Read a k))) by (destruct VO as (_ & W & _); now rewrite W).
+  eapply inv2_set_run; eauto.
+  intros v t w Hv Ht Hnd Sw. pose proof (handle_value _ _ _ _ _ I V A St Fi _ _ _ Hv Ht Sw) as HV.
+  destruct Sw as (S1 & S2 & S3 & S4 & S5). rewrite (cur_prog_run _ _ _ _ Hw1) in *.
+  assert (Val : match h with HLive => g_real g1 a | HRO x => x end = w a).
+  { destruct h; auto. }
+  rewrite Val. exists w. unfold shadow_ok. rewrite (cur_prog_run (set_work g1 i (WRun (k (w a)))) i t (k (w a))).
+  2:{ cbn. now rewrite Nat.eqb_refl. }
+  assert (Hs : startedb (set_work g1 i (WRun (k (w a)))) i = startedb g1 i).
+  { unfold startedb. cbn. now rewrite Nat.eqb_refl, Hw1. }
+  split; [apply touches_read_inv in S1; apply S1|]. split; [exact S2|]. split; [exact S3|]. split.
+  - intros a' Na. apply S4. intro Ac. apply Na. now apply active_set_work.
+  - intros a' Ac. apply S5. now apply (active_set_work g1 i _ i a') in Ac.
+Qed.
+
+Lemma write_inv2 g i a x k g1 : Inv1 g -> Inv2 g -> g_work g i = Some (WRun (Write a x k)) ->
+  access g i a = Some (g1, HLive) ->
+  Inv2 (set_work (set_real g1 (upd (g_real g1) a x)) i (WRun k)).
+Proof.
+  intros I V Hw A. destruct (phase_flags _ _ _ Hw) as [St Fi].
+  destruct (access_inv1 _ _ _ _ _ _ I A) as (I1 & SD & VO).
+  pose proof (access_inv2 _ _ _ _ _ I V A) as V1.
+  assert (Hw1 : g_work g1 i = Some (WRun (Write a x k))) by (destruct VO as (_ & W & _); now rewrite W).
+  assert (exists v t, g_vs g1 i = Some v /\ nth_error txs i = Some t /\ v_done v = false) as (v & t & Hv & Ht & Hnd).
+  { assert (Hs : i < scount txs g1).
+    { destruct (Nat.lt_ge_cases i (scount txs g1)); auto. rewrite (i_wk_none _ _ I1 i) in Hw1 by assumption. discriminate. }
+    pose proof (scount_le_dcount txs g1). destruct (i_vs_some _ _ I1 i) as [v Hv]; [lia|].
+    destruct (tx_of_vs _ _ _ _ I1 Hv) as [t Ht]. exists v, t. split; auto. split; auto.
+    destruct (phase_flags _ _ _ Hw1) as [_ Fi1].
+    apply (not_done_of_phase _ _ _ _ _ I1 Hv Ht Fi1). }
+  destruct (v_shadow _ V1 _ _ _ Hv Ht Hnd) as [w Sw].
+  pose proof (handle_value _ _ _ _ _ I V A St Fi _ _ _ Hv Ht Sw) as Act. cbn in Act.
+  set (g2 := set_real g1 (upd (g_real g1) a x)).
+  set (g' := set_work g2 i (WRun k)).
+  assert (ActE : forall j a', active_w g' j a' <-> active_w g1 j a').
+  { intros j a'. unfold g'. rewrite active_set_work.
+    - unfold active_w, g2. cbn. tauto.
+    - unfold startedb, g2. cbn. now rewrite Nat.eqb_refl, Hw1. }
+  assert (SDE : forall m, is_done g' m = is_done g1 m) by reflexivity.
+  assert (Ei : effw i a) by (eapply active_effw; eauto).
+  assert (Di : is_done g1 i = false) by (eapply active_not_done; eauto).
+  destruct V1 as [V1 V2 V3 V4 V5 V6 V7 V8 V9]. constructor; auto.
+  - intros a' k' Hk H1 H2. destruct (Nat.eq_dec a' a) as [->|Hna].
+    + exfalso. destruct (Nat.lt_ge_cases i k') as [Hik|Hik].
+      * specialize (H1 i Hik Ei). rewrite SDE in H1. congruence.
+      * apply (H2 i Hik Ei). right. now apply ActE.
+    + change (upd (g_real g1) a x a' = WB k' a'). rewrite upd_other by auto. apply V1; auto.
+      intros j Hj Ej [T|T]; apply (H2 j Hj Ej); [left; exact T|right; now apply ActE].
+  - intros j vj tj Hvj Htj Hndj. change (g_vs g1 j = Some vj) in Hvj.
+    destruct (Nat.eq_dec j i) as [->|Hne].
+    + assert (vj = v) by congruence; subst vj. assert (tj = t) by congruence; subst tj.
+      destruct Sw as (S1 & S2 & S3 & S4 & S5). rewrite (cur_prog_run _ _ _ _ Hw1) in *.
+      exists (upd w a x). unfold shadow_ok. rewrite (cur_prog_run g' i t k).
+      2:{ unfold g'. cbn. now rewrite Nat.eqb_refl. }
+      split; [apply touches_write_inv in S1; apply S1|]. split; [exact S2|]. split; [exact S3|]. split.
+      * intros a' Na. destruct (Nat.eq_dec a' a) as [->|Hna].
+        -- exfalso. apply Na. now apply ActE.
+        -- rewrite upd_other by auto. apply S4. intro Ac. apply Na. now apply ActE.
+      * intros a' Ac. change (upd (g_real g1) a x a' = upd w a x a').
+        destruct (Nat.eq_dec a' a) as [->|Hna].
+        -- now rewrite !upd_same.
+        -- rewrite !upd_other by auto. apply S5. now apply ActE.
+    + destruct (V2 j vj tj Hvj Htj Hndj) as [wj (S1 & S2 & S3 & S4 & S5)]. exists wj.
+      assert (Cp : cur_prog g' j tj = cur_prog g1 j tj).
+      { unfold cur_prog, g'. cbn. destruct (Nat.eqb_spec j i); [contradiction|reflexivity]. }
+      unfold shadow_ok. rewrite Cp.
+      split; [exact S1|]. split; [exact S2|]. split; [exact S3|]. split.
+      * intros a' Na. apply S4. intro Ac. apply Na. now apply ActE.
+      * intros a' Ac. apply ActE in Ac. change (upd (g_real g1) a x a' = wj a').
+        destruct (Nat.eq_dec a' a) as [->|Hna].
+        -- exfalso. apply Hne. eapply active_unique; eauto.
+        -- rewrite upd_other by auto. apply S5. exact Ac.
+  - intros j. unfold finishedb, g'. cbn. destruct (Nat.eqb_spec j i); subst.
+    + discriminate.
+    + apply V8.
+Qed.
+
+(* ------------------------------------------------------------------ *)
+(* the worker enters Execute                                            *)
+
+Lemma started_inv2 g i t v : Inv1 g -> Inv2 g -> g_work g i = Some WStart ->
+  nth_error txs i = Some t -> g_vs g i = Some v ->
+  (world_lock (reqs_of t) <> NoLock -> v_base v <> None) ->
+  Inv2 (set_work g i (WRun (tx_prog t))).
+Proof.
+  intros I V Hw Ht Hv Hb. set (g' := set_work g i (WRun (tx_prog t))).
+  assert (Fi : finishedb g i = false) by (unfold finishedb; now rewrite Hw).
+  destruct (not_done_of_phase _ _ _ _ _ I Hv Ht Fi) as (Hnd & Hc & Hwl).
+  pose proof (i_vs_ok _ _ I _ _ _ Hv Ht) as OK.
+  assert (Hfi : forall j, finishedb g' j = finishedb g j).
+  { intro j. unfold finishedb, g'. cbn. destruct (Nat.eqb_spec j i); subst; auto; now rewrite Hw. }
+  assert (Cp : forall j tj, nth_error txs j = Some tj -> cur_prog g' j tj = cur_prog g j tj).
+  { intros j tj Htj. unfold cur_prog, g'. cbn. destruct (Nat.eqb_spec j i); subst; auto.
+    rewrite Hw. congruence. }
+  assert (ActO : forall j a, j <> i -> (active_w g' j a <-> active_w g j a)).
+  { intros j a Hne. unfold active_w, startedb, g'. cbn. destruct (Nat.eqb_spec j i); [contradiction|tauto]. }
+  assert (ActM : forall j a, active_w g j a -> active_w g' j a).
+  { intros j a A. destruct (Nat.eq_dec j i) as [->|Hne]; [|now apply ActO].
+    destruct A as (u & Hu & Hd & [H|[H S]]).
+    - exists u. split; auto.
+    - unfold startedb in S. rewrite Hw in S. discriminate. }
+  destruct (world_lock_cases (reqs_of t)) as [Wl|[Wl|Wl]].
+  - (* no world lock: the active sets do not change *)
+    assert (ActI : forall a, active_w g' i a -> active_w g i a).
+    { intros a (u & Hu & Hd & [H|[H S]]); change (g_vs g i = Some u) in Hu.
+      - exists u. split; auto.
+      - assert (u = v) by congruence; subst u. rewrite Hwl, Wl in H. discriminate. }
+    eapply inv2_frame_act; eauto.
+    intros j vj tj w Hvj Htj Hndj Sw. exists w. apply (shadow_same g g' j tj w); auto.
+    intro a. split; auto. destruct (Nat.eq_dec j i) as [->|Hne]; auto. apply ActO; auto.
+  - exfalso. apply (Hnwr _ _ Ht). exact Wl.
+  - (* world write lock: from now on it holds every live account *)
+    assert (Bs : forall m, m < i -> is_done g m = true).
+    { apply (vo_base _ _ _ _ _ OK). apply Hb. congruence. }
+    assert (Di : is_done g i = false) by (unfold is_done; now rewrite Hv).
+    assert (Ei : forall a, effw i a).
+    { intro a. exists t. split; auto. apply can_write_spec. auto. }
+    assert (NA : forall a, ~ active_w g i a).
+    { intros a (u & Hu & _ & [H|[_ S]]).
+      - assert (u = v) by congruence; subst u.
+        pose proof (vo_accts _ _ _ _ _ OK a) as LA. rewrite H, (entry_world_write _ a Wl) in LA. exact LA.
+      - unfold startedb in S. rewrite Hw in S. discriminate. }
+    assert (Hi : i <= n) by (apply Nat.lt_le_incl, nth_error_Some; congruence).
+    assert (Hreal : forall a, g_real g a = WB i a).
+    { intro a. apply (v_real _ V); auto.
+      intros j Hj Ej. destruct (Nat.eq_dec j i) as [->|].
+      - intros [T|T]; [congruence|exact (NA a T)].
+      - apply (later_untouched g i a j I (Ei a) Di); [lia|exact Ej]. }
+    eapply inv2_frame_act; eauto.
+    intros j vj tj w Hvj Htj Hndj Sw. destruct (Nat.eq_dec j i) as [->|Hne].
+    + assert (tj = t) by congruence; subst tj. destruct Sw as (S1 & S2 & S3 & S4 & S5).
+      exists w. unfold shadow_ok. rewrite (Cp _ _ Ht).
+      split; [exact S1|]. split; [exact S2|]. split; [exact S3|]. split.
+      * intros a _. apply S4. apply NA.
+      * intros a _. change (g_real g a = w a). rewrite Hreal. symmetry. apply S4. apply NA.
+    + exists w. apply (shadow_same g g' j tj w); auto; intro a; apply ActO; auto.
+Qed.
+
+Lemma start_inv2 g i g' : Inv1 g -> Inv2 g -> g_work g i = Some WStart ->
+  step_start txs g i = Some g' -> Inv2 g'.
+Proof.
+  intros I V Hw H. unfold step_start in H.
+  destruct (nth_error txs i) as [t|] eqn:Ht; try discriminate.
+  destruct (g_vs g i) as [v|] eqn:Hv; try discriminate.
+  assert (F : finishedb g i = false) by (unfold finishedb; now rewrite Hw).
+  destruct (not_done_of_phase _ _ _ _ _ I Hv Ht F) as (Hnd & Hc & Hwl).
+  rewrite Hc, Hwl in H.
+  assert (exists g1, Inv1 g1 /\ Inv2 g1 /\ vs_only g g1 /\
+            (exists v1, g_vs g1 i = Some v1 /\ (world_lock (reqs_of t) <> NoLock -> v_base v1 <> None)) /\
+            match access g1 i SYS with
+            | Some (g2, _) => Some (set_work g2 i (WRun (tx_prog t)))
+            | None => None
+            end = Some g') as (g1 & I1 & V1 & VO & (v1 & Hv1 & Hb1) & H1).
+  { destruct (world_lock (reqs_of t)) eqn:Wl.
+    - exists g. split; auto. split; auto. split; [apply vs_only_refl|]. split; auto. exists v; split; auto; congruence.
+    - destruct (realize_base g i) as [g1|] eqn:R; try discriminate.
+      destruct (realize_base_inv1 _ _ _ _ _ I Hv R) as (I1 & S & (v1 & Hv1 & B & _) & _).
+      exists g1. split; auto. split; [eapply inv2_st_sim; eauto|]. split; [apply S|]. split; auto. eauto.
+    - destruct (realize_base g i) as [g1|] eqn:R; try discriminate.
+      destruct (realize_base_inv1 _ _ _ _ _ I Hv R) as (I1 & S & (v1 & Hv1 & B & _) & _).
+      exists g1. split; auto. split; [eapply inv2_st_sim; eauto|]. split; [apply S|]. split; auto. eauto.
+    - exfalso. destruct (world_lock_cases (reqs_of t)) as [E|[E|E]]; congruence. }
+  destruct (access g1 i SYS) as [[g2 h]|] eqn:A; try discriminate. inversion H1; subst g'. clear H1.
+  destruct (access_inv1 _ _ _ _ _ _ I1 A) as (I2 & D2 & VO2).
+  pose proof (access_inv2 _ _ _ _ _ I1 V1 A) as V2.
+  assert (Hw2 : g_work g2 i = Some WStart).
+  { destruct VO as (_ & W1 & _). destruct VO2 as (_ & W2 & _). rewrite W2, W1. auto. }
+  destruct (scount_le_dcount txs g2) as [|]; cbn.
+  all: assert (exists v2, g_vs g2 i = Some v2 /\ (world_lock (reqs_of t) <> NoLock -> v_base v2 <> None)) as (v2 & Hv2 & Hb2).
+  all: try (destruct (world_lock_cases (reqs_of t)) as [E|E];
+    [ assert (Hs : i < scount txs g2) by
+        (destruct (Nat.lt_ge_cases i (scount txs g2)); auto; rewrite (i_wk_none _ _ I2 i) in Hw2 by assumption; discriminate);
+      pose proof (scount_le_dcount txs g2); destruct (i_vs_some _ _ I2 i) as [v2 Hv2]; [lia|];
+      exists v2; split; auto; congruence
+    | assert (Wn : world_lock (reqs_of t) <> NoLock) by (destruct E; congruence);
+      destruct (access_base _ _ _ _ _ _ _ I1 A Hv1 (Hb1 Wn)) as (v2 & Hv2 & B2); exists v2; split; auto ]).
+  all: eapply started_inv2; eauto.
+Qed.
+
+(* ------------------------------------------------------------------ *)
+(* Commit                                                               *)
+
+Lemma commit_inv2 g i r g1 : Inv1 g -> Inv2 g -> g_work g i = Some (WRun (Done r)) ->
+  commit (set_rct g i r) i = Some g1 -> Inv2 (set_work g1 i WRelease).
+Proof.
+  intros I V Hw H. unfold commit in H. cbn [g_vs set_rct] in H.
+  destruct (g_vs g i) as [v|] eqn:Hv; try discriminate.
+  destruct (tx_of_vs _ _ _ _ I Hv) as [t Ht]. pose proof (i_vs_ok _ _ I _ _ _ Hv Ht) as OK.
+  destruct (phase_flags _ _ _ Hw) as [St Fi].
+  destruct (not_done_of_phase _ _ _ _ _ I Hv Ht Fi) as (Hnd & Hc & Hwl).
+  rewrite Hnd in H.
+  match type of H with (if ?c then _ else _) = _ => destruct c eqn:FA; try discriminate end.
+  set (accts' := fun a => match v_accts v a with
+                          | Some l => match commit_las (set_rct g i r) a l with Some l' => Some l' | None => Some l end
+                          | None => None end) in *.
+  assert (exists wl' cm', g1 = set_vs (set_rct g i r) i (mkV wl' accts' (v_keys v) (v_base v) cm' true) /\
+            (world_lock (reqs_of t) = WriteLock -> cm' = Some (g_real g))) as (wl' & cm' & -> & Hcm).
+  { rewrite Hwl in H. destruct (world_lock (reqs_of t)) eqn:Wl; inversion H; subst;
+    do 2 eexists; split; eauto; congruence. }
+  set (v' := mkV wl' accts' (v_keys v) (v_base v) cm' true).
+  set (g' := set_work (set_vs (set_rct g i r) i v') i WRelease).
+  destruct (v_shadow _ V _ _ _ Hv Ht Hnd) as [w (S1 & S2 & S3 & S4 & S5)].
+  rewrite (cur_prog_run _ _ _ _ Hw) in *.
+  assert (S2' : forall a, w a = WB (S i) a) by exact S2.
+  assert (S3' : r = snd (run_prog (tx_prog t) (WB i))) by exact S3.
+  clear S2 S3. rename S2' into S2. rename S3' into S3.
+  assert (Hi : i < n) by (apply nth_error_Some; congruence).
+  assert (Di : is_done g i = false) by (unfold is_done; now rewrite Hv).
+  assert (SDo : forall j, j <> i -> is_done g' j = is_done g j).
+  { intros j Hne. unfold is_done, g'. cbn. destruct (Nat.eqb_spec j i); [contradiction|reflexivity]. }
+  assert (SDi : is_done g' i = true) by (unfold is_done, g'; cbn; now rewrite Nat.eqb_refl).
+  assert (ActO : forall j a, j <> i -> (active_w g' j a <-> active_w g j a)).
+  { intros j a Hne. unfold active_w, startedb, g'. cbn. destruct (Nat.eqb_spec j i); [contradiction|tauto]. }
+  assert (NAi : forall a, ~ active_w g' i a).
+  { intros a (u & Hu & Hd & _). unfold g' in Hu. cbn in Hu. rewrite Nat.eqb_refl in Hu.
+    inversion Hu; subst u. discriminate. }
+  (* the live value of an account i holds or never touched *)
+  assert (Hreal : forall a, eff_writer t a = true ->
+            (forall j, j < i -> effw j a -> is_done g j = true) -> g_real g a = WB (S i) a).
+  { intros a Ea H1. assert (Ei : effw i a) by (exists t; auto).
+    destruct (active_dec g i a) as [A|NA].
+    - rewrite (S5 a A). apply S2.
+    - rewrite <- S2, (S4 a NA). apply (v_real _ V); auto; [lia|].
+      intros j Hj Ej. destruct (Nat.eq_dec j i) as [->|].
+      + intros [T|T]; [congruence|contradiction].
+      + apply (later_untouched g i a j I Ei Di); [lia|exact Ej]. }
+  pose proof V as Vall.
+  destruct V as [V1 V2 V3 V4 V5 V6 V7 V8 V9]. constructor.
+  - intros a k Hk H1 H2. change (g_real g a = WB k a).
+    destruct (eff_writer t a) eqn:Ea.
+    + assert (Ei : effw i a) by (exists t; auto).
+      destruct (Nat.lt_ge_cases i k) as [Hik|Hik].
+      2:{ exfalso. apply (H2 i Hik Ei). left. exact SDi. }
+      assert (Hno : forall j, S i <= j < k -> ~ effw j a).
+      { intros j Hj Ej. assert (Dj : is_done g j = true) by (rewrite <- SDo by lia; apply H1; [lia|exact Ej]).
+        pose proof (touched_earlier _ _ _ I Ej (or_introl Dj) i ltac:(lia) Ei). congruence. }
+      rewrite (world_before_frame txs w0 Hwd a (S i) k) by (auto; lia).
+      apply Hreal; auto. intros j Hj Ej. rewrite <- SDo by lia. apply H1; [lia|exact Ej].
+    + apply V1; auto.
+      * intros j Hj Ej. destruct (Nat.eq_dec j i) as [->|Hne].
+        -- destruct Ej as [t' [Ht' Ea']]. congruence.
+        -- rewrite <- SDo by auto. auto.
+      * intros j Hj Ej T. destruct (Nat.eq_dec j i) as [->|Hne].
+        -- destruct Ej as [t' [Ht' Ea']]. congruence.
+        -- apply (H2 j Hj Ej). destruct T as [T|T]; [left; now rewrite SDo|right; now apply ActO].
+  - intros j vj tj Hvj Htj Hndj. unfold g' in Hvj. cbn in Hvj. destruct (Nat.eqb_spec j i); subst.
+    + inversion Hvj; subst vj. discriminate.
+    + destruct (V2 j vj tj Hvj Htj Hndj) as [wj Sw]. exists wj.
+      apply (shadow_frame g g'); auto; unfold g'; cbn; destruct (Nat.eqb_spec j i); congruence.
+  - intros j vj a x Hvj Ha. unfold g' in Hvj. cbn in Hvj. destruct (Nat.eqb_spec j i); subst.
+    + inversion Hvj; subst vj. cbn in Ha. unfold accts' in Ha.
+      destruct (v_accts v a) as [l|] eqn:Hl; try discriminate.
+      destruct (entry_of_las _ _ _ _ _ _ I Hv Ht Hl) as (e & He & [L1 L2] & _). rewrite Hnd in L1.
+      change (commit_las (set_rct g i _) a l) with (commit_las g a l) in Ha.
+      unfold commit_las in Ha. rewrite L1 in Ha.
+      destruct (entry_rw _ _ _ He) as [->| ->].
+      * inversion Ha; subst l. eapply V3; eauto.
+      * destruct (l_st l) as [d| |y]; cbn in Ha.
+        -- destruct (is_done g d); [destruct (peek g d a)|]; inversion Ha; subst; try discriminate;
+           cbn in *; congruence.
+        -- discriminate.
+        -- discriminate.
+    + eapply V3; eauto.
+  - intros j vj a x Hvj Ha. unfold g' in Hvj. cbn in Hvj. destruct (Nat.eqb_spec j i); subst.
+    + inversion Hvj; subst vj. cbn in Ha. unfold accts' in Ha.
+      destruct (v_accts v a) as [l|] eqn:Hl; try discriminate.
+      destruct (entry_of_las _ _ _ _ _ _ I Hv Ht Hl) as (e & He & [L1 L2] & Wnw). rewrite Hnd in L1.
+      change (commit_las (set_rct g i _) a l) with (commit_las g a l) in Ha.
+      unfold commit_las in Ha. rewrite L1 in Ha.
+      destruct (entry_rw _ _ _ He) as [->| ->].
+      * inversion Ha; subst l. cbn in L1. discriminate.
+      * assert (NWl : v_wlock v <> WriteLock) by (rewrite Hwl; exact Wnw).
+        destruct (l_st l) as [d| |y] eqn:Hst; cbn in Ha.
+        -- destruct L2 as [LW _].
+           destruct (is_done g d) eqn:Dd; [destruct (peek g d a) as [y|] eqn:P|]; inversion Ha; subst;
+           try (cbn in *; congruence).
+           assert (NA : ~ active_w g i a).
+           { intros (u & Hu & _ & [A|[A _]]); assert (u = v) by congruence; subst u; try congruence.
+             rewrite Hl in A. inversion A. destruct l; cbn in *; congruence. }
+           rewrite <- S2, (S4 a NA). apply (peek_value g i a d x I Vall LW); [lia|exact Dd|exact P].
+        -- inversion Ha; subst. change (g_real g a = WB (S i) a).
+           assert (A : active_w g i a).
+           { exists v. split; auto. split; auto. left. rewrite Hl. destruct l; cbn in *; congruence. }
+           rewrite (S5 a A). apply S2.
+        -- destruct L2 as [[L2|L2] _]; congruence.
+    + eapply V4; eauto.
+  - intros j vj tj Hvj Htj Hdj Wj. unfold g' in Hvj. cbn in Hvj. destruct (Nat.eqb_spec j i); subst.
+    + inversion Hvj; subst vj. assert (tj = t) by congruence; subst tj. cbn.
+      exists (g_real g). split; [apply Hcm; auto|]. intro a.
+      assert (A : active_w g i a).
+      { exists v. split; auto. split; auto. right. split; auto. congruence. }
+      rewrite (S5 a A). apply S2.
+    + eapply V5; eauto.
+  - exact V6.
+  - intros j r'. unfold g'. cbn. destruct (Nat.eqb_spec j i); subst.
+    + intro E. inversion E; subst r'. unfold observed_seq. rewrite Ht. reflexivity.
+    + apply V7.
+  - intros j. unfold finishedb, g'. cbn. destruct (Nat.eqb_spec j i); subst.
+    + discriminate.
+    + apply V8.
+  - exact V9.
+Qed.
+
+(* ------------------------------------------------------------------ *)
+(* dispatcher steps                                                     *)
+
+Lemma get_future_cache g i t a x : g_rocache (get_future g i t) a = Some x ->
+  g_rocache g a = Some x \/ (x = g_real g a /\ get_locker g a = None).
+Proof.
+  unfold get_future. destruct (world_lock (reqs_of t)); cbn; auto;
+  destruct (entry (reqs_of t) a) as [[]|]; auto;
+  destruct (get_locker g a); auto; destruct (g_rocache g a); auto;
+  intro E; inversion E; auto.
+Qed.
+
+Lemma prepare_inv2 g i t : Inv1 g -> Inv2 g -> g_disp g = DPrepare i -> nth_error txs i = Some t ->
+  Inv2 (set_disp (get_future g i t) (DSpawn i)).
+Proof.
+  intros I V Hd Ht.
+  destruct (get_future_spec g i t) as (vn & Hvs & Wn & Dn & Cn & Bn & An & Kn & Ln & Wk & Dp & Rl & Tk & Rc & Fn).
+  set (g' := set_disp (get_future g i t) (DSpawn i)).
+  assert (Hdc : dcount txs g = i) by (unfold dcount; now rewrite Hd).
+  assert (Hsc : scount txs g = i) by (unfold scount; now rewrite Hd).
+  assert (Hin : i < n) by (apply nth_error_Some; congruence).
+  assert (Hnone : g_vs g i = None) by (apply (i_vs_none _ _ I); lia).
+  assert (Wnone : g_work g i = None) by (apply (i_wk_none _ _ I); lia).
+  assert (Hvs' : forall m, g_vs g' m = if Nat.eqb m i then Some vn else g_vs g m) by exact Hvs.
+  assert (SD : forall m, is_done g' m = is_done g m).
+  { intro m. unfold is_done. rewrite Hvs'. destruct (Nat.eqb_spec m i); subst; auto. now rewrite Dn, Hnone. }
+  assert (Later : forall j a, i <= j -> ~ touched g j a).
+  { intros j a Hj [T|(u & Hu & _)].
+    - apply (is_done_created _ _ _ I) in T. lia.
+    - rewrite (i_vs_none _ _ I j) in Hu by lia. discriminate. }
+  (* an account nobody before i writes still has its initial value *)
+  assert (Fresh : forall a, get_locker g a = None -> g_real g a = WB i a /\ WB i a = w0 a).
+  { intros a L. rewrite (i_lockers _ _ I a), Hdc in L. split.
+    - apply (v_real _ V); [lia| |intros; apply Later; auto].
+      intros j Hj Ej. exfalso. eapply last_writer_None; eauto.
+    - rewrite (world_before_frame txs w0 Hwd a 0 i); auto; try lia.
+      intros k Hk. eapply last_writer_None; eauto. lia. }
+  assert (ActO : forall j a, j <> i -> (active_w g' j a <-> active_w g j a)).
+  { intros j a Hne. unfold active_w, startedb. rewrite Hvs'. change (g_work g' j) with (g_work (get_future g i t) j).
+    rewrite Wk. destruct (Nat.eqb_spec j i); [contradiction|tauto]. }
+  assert (ActM : forall j a, active_w g j a -> active_w g' j a).
+  { intros j a A. destruct (Nat.eq_dec j i) as [->|Hne]; [|now apply ActO].
+    destruct A as (u & Hu & _). congruence. }
+  assert (Hfi : forall j, finishedb g' j = finishedb g j).
+  { intro j. unfold finishedb. change (g_work g' j) with (g_work (get_future g i t) j). now rewrite Wk. }
+  pose proof V as Vall. destruct V as [V1 V2 V3 V4 V5 V6 V7 V8 V9]. constructor.
+  - apply (v_real_mono g g'); auto. intros j a [T|T]; [left; now rewrite SD|right; auto].
+  - intros j vj tj Hvj Htj Hndj. rewrite Hvs' in Hvj. destruct (Nat.eq_dec j i) as [->|Hne].
+    + rewrite Nat.eqb_refl in Hvj. inversion Hvj; subst vj. assert (tj = t) by congruence; subst tj.
+      exists (WB i). unfold shadow_ok.
+      assert (Cp : cur_prog g' i t = tx_prog t).
+      { unfold cur_prog. change (g_work g' i) with (g_work (get_future g i t) i). now rewrite Wk, Wnone. }
+      rewrite Cp. split; [apply (Hwd _ _ Ht)|]. split.
+      { intro a. rewrite (world_before_S txs w0 i t Ht). reflexivity. }
+      split; [reflexivity|]. split; [auto|].
+      intros a (u & Hu & _ & [A|[_ S]]).
+      * rewrite Hvs', Nat.eqb_refl in Hu. inversion Hu; subst u. rewrite An in A.
+        destruct (entry (reqs_of t) a) as [e|]; try discriminate. unfold init_las in A.
+        destruct (get_locker g a) eqn:L; [inversion A|].
+        change (g_real g' a) with (g_real (get_future g i t) a). rewrite Rl. apply Fresh; auto.
+      * unfold startedb in S. change (g_work g' i) with (g_work (get_future g i t) i) in S.
+        rewrite Wk, Wnone in S. discriminate.
+    + destruct (Nat.eqb_spec j i); [contradiction|].
+      destruct (V2 j vj tj Hvj Htj Hndj) as [w Sw]. exists w.
+      apply (shadow_same g g' j tj w); auto;
+        try (unfold cur_prog; change (g_work g' j) with (g_work (get_future g i t) j); now rewrite Wk);
+        try (intro a; apply ActO; auto).
+  - intros j vj a x Hvj Ha. rewrite Hvs' in Hvj. destruct (Nat.eq_dec j i) as [->|Hne].
+    + rewrite Nat.eqb_refl in Hvj. inversion Hvj; subst vj. rewrite An in Ha.
+      destruct (entry (reqs_of t) a) as [e|]; try discriminate. unfold init_las in Ha.
+      destruct (get_locker g a) eqn:L; [inversion Ha|].
+      destruct (Fresh a L) as [F1 F2].
+      destruct e; inversion Ha; subst; destruct (g_rocache g a) eqn:C; try (apply V6 in C; subst); congruence.
+    + destruct (Nat.eqb_spec j i); [contradiction|]. eapply V3; eauto.
+  - intros j vj a x Hvj Ha. rewrite Hvs' in Hvj. destruct (Nat.eq_dec j i) as [->|Hne].
+    + rewrite Nat.eqb_refl in Hvj. inversion Hvj; subst vj. rewrite An in Ha.
+      destruct (entry (reqs_of t) a) as [e|] eqn:He; try discriminate. unfold init_las in Ha.
+      destruct (entry_rw _ _ _ He) as [->| ->]; destruct (get_locker g a); inversion Ha.
+    + destruct (Nat.eqb_spec j i); [contradiction|]. eapply V4; eauto.
+  - intros j vj tj Hvj Htj Hdj Wj. rewrite Hvs' in Hvj. destruct (Nat.eq_dec j i) as [->|Hne].
+    + rewrite Nat.eqb_refl in Hvj. inversion Hvj; subst vj. congruence.
+    + destruct (Nat.eqb_spec j i); [contradiction|]. eapply V5; eauto.
+  - intros a x Hc. change (g_rocache g' a) with (g_rocache (get_future g i t) a) in Hc.
+    destruct (get_future_cache _ _ _ _ _ Hc) as [C|[-> L]]; auto.
+    destruct (Fresh a L) as [F1 F2]. congruence.
+  - intros j r. change (g_rcts g' j) with (g_rcts (get_future g i t) j). rewrite Rc. apply V7.
+  - intros j. rewrite Hfi. change (g_rcts g' j) with (g_rcts (get_future g i t) j). rewrite Rc. apply V8.
+  - intros w. change (g_final g') with (g_final (get_future g i t)). rewrite Fn. apply V9.
+Qed.
+
+Lemma final_inv2 g : Inv2 g -> (forall j, j < n -> is_done g j = true) ->
+  Inv2 (set_disp (set_final g (g_real g)) DDone).
+Proof.
+  intros V D. set (g' := set_disp (set_final g (g_real g)) DDone).
+  assert (Fin : forall a, g_real g a = seq_world txs w0 a).
+  { intro a. rewrite <- (world_before_all txs w0 n) by (unfold n; lia).
+    apply (v_real _ V); auto.
+    intros j Hj Ej. apply effw_lt_n in Ej. lia. }
+  destruct V as [V1 V2 V3 V4 V5 V6 V7 V8 V9]. constructor; auto;
+  try (intros j v t Hv Ht Hnd; destruct (V2 j v t Hv Ht Hnd) as [w Sw]; exists w; exact Sw);
+  try (intros w E; inversion E; subst; exact Fin).
+Qed.
+
+Lemma step_disp_inv2 g g' : Inv1 g -> Inv2 g -> step_disp txs g = Some g' -> Inv2 g'.
+Proof.
+  intros I V H. unfold step_disp in H. destruct (g_disp g) as [i|i|] eqn:Hd; try discriminate.
+  - destruct (nth_error txs i) as [t|] eqn:Ht.
+    + inversion H; subst. apply prepare_inv2; auto.
+    + assert (Hn : n <= i) by (apply nth_error_None; auto).
+      assert (Hi : i <= n) by (pose proof (i_disp _ _ I) as B; rewrite Hd in B; exact B).
+      destruct i as [|j].
+      * inversion H; subst. apply final_inv2; auto. intros j Hj. lia.
+      * destruct (realize g j) as [g1|] eqn:R; try discriminate. inversion H; subst. clear H.
+        assert (Hj : j < dcount txs g) by (unfold dcount; rewrite Hd; lia).
+        destruct (realize_inv1 _ _ _ _ I Hj R) as (I1 & S1 & D & _).
+        apply final_inv2; [eapply inv2_st_sim; eauto|].
+        intros m Hm. rewrite (st_sim_done _ _ _ S1). apply D. lia.
+  - destruct (g_tokens g) as [|k] eqn:Tk; try discriminate. inversion H; subst. clear H.
+    assert (Sc : scount txs g = i) by (unfold scount; now rewrite Hd).
+    assert (Wn : g_work g i = None) by (apply (i_wk_none _ _ I); lia).
+    set (g' := set_disp (set_work (set_tokens g k) i WStart) (DPrepare (S i))).
+    assert (Act : forall j a, active_w g' j a <-> active_w g j a).
+    { intros j a. unfold active_w, startedb, g'. cbn. destruct (Nat.eqb_spec j i); subst; [|tauto].
+      rewrite Wn. tauto. }
+    eapply inv2_frame_act; eauto.
+    + intros j a. apply Act.
+    + intro j. unfold finishedb, g'. cbn. destruct (Nat.eqb_spec j i); subst; auto. now rewrite Wn.
+    + intros j v t w Hv Ht Hnd Sw. exists w. apply (shadow_same g g' j t w); auto.
+      unfold cur_prog, g'. cbn. destruct (Nat.eqb_spec j i); subst; auto. now rewrite Wn.
+Qed.
+
+Lemma step_worker_inv2 g i g' : Inv1 g -> Inv2 g -> step_worker txs g i = Some g' -> Inv2 g'.
+Proof.
+  intros I V H. unfold step_worker in H.
+  destruct (g_work g i) as [[|p| |]|] eqn:Hw; try discriminate.
+  - eapply start_inv2; eauto.
+  - destruct p as [r|a k|a x k].
+    + destruct (commit (set_rct g i r) i) as [g1|] eqn:C; try discriminate.
+      inversion H; subst. eapply commit_inv2; eauto.
+    + destruct (access g i a) as [[g1 h]|] eqn:A; try discriminate. inversion H; subst.
+      eapply read_inv2; eauto.
+    + destruct (access g i a) as [[g1 [|y]]|] eqn:A; try discriminate. inversion H; subst.
+      eapply write_inv2; eauto.
+  - inversion H; subst. clear H.
+    set (g' := set_work (set_tokens g (S (g_tokens g))) i WFinished).
+    assert (Act : forall j a, active_w g' j a <-> active_w g j a).
+    { intros j a. unfold active_w, startedb, g'. cbn. destruct (Nat.eqb_spec j i); subst; [|tauto].
+      rewrite Hw. tauto. }
+    eapply inv2_frame_act; eauto.
+    + intros j a. apply Act.
+    + intro j. unfold finishedb, g'. cbn. destruct (Nat.eqb_spec j i); subst; auto. now rewrite Hw.
+    + intros j v t w Hv Ht Hnd Sw. exists w. apply (shadow_same g g' j t w); auto.
+      unfold cur_prog, g'. cbn. destruct (Nat.eqb_spec j i); subst; auto. now rewrite Hw.
+Qed.
+
+Lemma init_inv2 level : Inv2 (init_state level w0).
+Proof.
+  constructor; cbn; try discriminate.
+  - intros a k Hk H1 H2. rewrite (world_before_frame txs w0 Hwd a 0 k); auto; try lia.
+    intros j Hj Ej. specialize (H1 j ltac:(lia) Ej). discriminate.
+Qed.
+
+Lemma run_inv12 sched : forall g, Inv1 g -> Inv2 g -> Inv1 (run txs g sched) /\ Inv2 (run txs g sched).
+Proof.
+  induction sched as [|a s IH]; intros g I V; cbn; auto.
+  destruct (step txs g a) as [g'|] eqn:E; auto.
+  apply IH; [eapply step_inv1; eauto|].
+  destruct a; cbn in E; eauto using step_disp_inv2, step_worker_inv2.
+Qed.
+
+(* ------------------------------------------------------------------ *)
+(* once executeTxsConcurrent has returned every worker has committed     *)
+
+Record Inv4 (g : gstate) : Prop := {
+  i_fin : g_disp g = DDone -> forall j, j < n -> finishedb g j = true;
+  i_finw : g_disp g = DDone -> g_final g <> None
+}.
+
+Lemma commit_frame g i g1 : commit g i = Some g1 ->
+  g_disp g1 = g_disp g /\ g_final g1 = g_final g /\ g_work g1 = g_work g.
+Proof.
+  unfold commit. destruct (g_vs g i) as [v|]; try discriminate.
+  destruct (v_done v); [intro E; inversion E; auto|].
+  match goal with |- (if ?c then _ else _) = _ -> _ => destruct c; try discriminate end.
+  destruct (v_wlock v); intro E; inversion E; auto.
+Qed.
+
+Lemma step_worker_inv4 g i g' : Inv1 g -> Inv4 g -> step_worker txs g i = Some g' -> Inv4 g'.
+Proof.
+  intros I [F W] H.
+  assert (Key : g_disp g' = g_disp g /\ g_final g' = g_final g /\
+                forall j, finishedb g j = true -> finishedb g' j = true).
+  { unfold step_worker in H. destruct (g_work g i) as [[|p| |]|] eqn:Hw; try discriminate.
+    - unfold step_start in H.
+      destruct (nth_error txs i) as [t|]; try discriminate.
+      destruct (g_vs g i) as [v|] eqn:Hv; try discriminate.
+      assert (exists g1, Inv1 g1 /\ vs_only g g1 /\
+                match access g1 i SYS with
+                | Some (g2, _) => Some (set_work g2 i (WRun (tx_prog t)))
+                | None => None
+                end = Some g') as (g1 & I1 & VO & H1).
+      { destruct (v_committed v).
+        { exists g. split; auto. split; auto using vs_only_refl. }
+        destruct (v_wlock v).
+        - exists g. split; auto. split; auto using vs_only_refl.
+        - destruct (realize_base g i) as [g1|] eqn:R; try discriminate.
+          destruct (realize_base_inv1 _ _ _ _ _ I Hv R) as (I1 & S & _).
+          exists g1. split; auto. split; auto. apply S.
+        - destruct (realize_base g i) as [g1|] eqn:R; try discriminate.
+          destruct (realize_base_inv1 _ _ _ _ _ I Hv R) as (I1 & S & _).
+          exists g1. split; auto. split; auto. apply S.
+        - exists g. split; auto. split; auto using vs_only_refl. }
+      destruct (access g1 i SYS) as [[g2 h]|] eqn:A; try discriminate. inversion H1; subst g'.
+      destruct (access_inv1 _ _ _ _ _ _ I1 A) as (_ & _ & VO2).
+      pose proof (vs_only_trans _ _ _ VO VO2) as (_ & Wk & Dp & _ & _ & _ & _ & _ & Fn).
+      split; auto. split; auto. intros j. unfold finishedb. cbn. rewrite Wk.
+      destruct (Nat.eqb_spec j i); subst; auto. rewrite Hw. discriminate.
+    - destruct p as [r|a k|a x k].
+      + destruct (commit (set_rct g i r) i) as [g1|] eqn:C; try discriminate. inversion H; subst.
+        destruct (commit_frame _ _ _ C) as (Dp & Fn & Wk).
+        split; auto. split; auto. intros j. unfold finishedb. cbn. rewrite Wk. cbn.
+        destruct (Nat.eqb_spec j i); subst; auto.
+      + destruct (access g i a) as [[g1 h]|] eqn:A; try discriminate. inversion H; subst.
+        destruct (access_inv1 _ _ _ _ _ _ I A) as (_ & _ & (_ & Wk & Dp & _ & _ & _ & _ & _ & Fn)).
+        split; auto. split; auto. intros j. unfold finishedb. cbn. rewrite Wk.
+        destruct (Nat.eqb_spec j i); subst; auto. rewrite Hw. discriminate.
+      + destruct (access g i a) as [[g1 [|y]]|] eqn:A; try discriminate. inversion H; subst.
+        destruct (access_inv1 _ _ _ _ _ _ I A) as (_ & _ & (_ & Wk & Dp & _ & _ & _ & _ & _ & Fn)).
+        split; auto. split; auto. intros j. unfold finishedb. cbn. rewrite Wk.
+        destruct (Nat.eqb_spec j i); subst; auto. rewrite Hw. discriminate.
+    - inversion H; subst. split; auto. split; auto. intros j. unfold finishedb. cbn.
+      destruct (Nat.eqb_spec j i); subst; auto. }
+  destruct Key as (Dp & Fn & Fm). constructor.
+  - rewrite Dp. intros D j Hj. apply Fm. auto.
+  - rewrite Dp, Fn. auto.
+Qed.
+
+Lemma step_disp_inv4 g g' : Inv1 g -> Inv4 g -> step_disp txs g = Some g' -> Inv4 g'.
+Proof.
+  intros I [F W] H. unfold step_disp in H. destruct (g_disp g) as [i|i|] eqn:Hd; try discriminate.
+  - destruct (nth_error txs i) as [t|] eqn:Ht.
+    + inversion H; subst. constructor; cbn; discriminate.
+    + assert (Hn : n <= i) by (apply nth_error_None; auto).
+      destruct i as [|j].
+      * inversion H; subst. constructor; cbn; [intros _ j Hj; lia|discriminate].
+      * destruct (realize g j) as [g1|] eqn:R; try discriminate. inversion H; subst. clear H.
+        assert (Hj : j < dcount txs g) by (unfold dcount; rewrite Hd; lia).
+        destruct (realize_inv1 _ _ _ _ I Hj R) as (I1 & S1 & D & _).
+        constructor; cbn; [|discriminate]. intros _ m Hm.
+        assert (Dm : is_done g1 m = true) by (rewrite (st_sim_done _ _ _ S1); apply D; lia).
+        unfold is_done in Dm. destruct (g_vs g1 m) as [v|] eqn:Hv; try discriminate.
+        destruct (tx_of_vs _ _ _ _ I1 Hv) as [t Htm]. change (finishedb g1 m = true).
+        rewrite <- (vo_done _ _ _ _ _ (i_vs_ok _ _ I1 _ _ _ Hv Htm)). exact Dm.
+  - destruct (g_tokens g); try discriminate. inversion H; subst. constructor; cbn; discriminate.
+Qed.
+
+Lemma init_inv4 level : Inv4 (init_state level w0).
+Proof. constructor; cbn; discriminate. Qed.
+
+Lemma run_inv124 sched : forall g, Inv1 g -> Inv2 g -> Inv4 g ->
+  Inv1 (run txs g sched) /\ Inv2 (run txs g sched) /\ Inv4 (run txs g sched).
+Proof.
+  induction sched as [|a s IH]; intros g I V F; cbn; auto.
+  destruct (step txs g a) as [g'|] eqn:E; auto.
+  apply IH; [eapply step_inv1; eauto| |].
+  - destruct a; cbn in E; eauto using step_disp_inv2, step_worker_inv2.
+  - destruct a; cbn in E; eauto using step_disp_inv4, step_worker_inv4.
+Qed.
+
+(* ------------------------------------------------------------------ *)
+(* the theorems, for this list of transactions                          *)
+
+Theorem serializable_val level sched :
+  complete (exec level w0 txs sched) = true ->
+  exists w, g_final (exec level w0 txs sched) = Some w /\
+    (forall a, w a = seq_world txs w0 a) /\
+    forall i, i < n -> g_rcts (exec level w0 txs sched) i = observed_seq txs w0 i.
+Proof.
+  unfold exec. intro C.
+  destruct (run_inv124 sched _ (init_inv1 txs level w0) (init_inv2 level) (init_inv4 level)) as (I & V & F).
+  set (g := run txs (init_state level w0) sched) in *.
+  assert (D : g_disp g = DDone) by (unfold complete in C; destruct (g_disp g); congruence).
+  destruct (g_final g) as [w|] eqn:Fw; [|exfalso; apply (i_finw _ F D); auto].
+  exists w. split; auto. split; [apply (v_final _ V); auto|].
+  intros i Hi. pose proof (i_fin _ F D i Hi) as Fi. pose proof (v_rdone _ V i Fi) as R.
+  destruct (g_rcts g i) as [r|] eqn:Er; try congruence. symmetry. apply (v_rcts _ V); auto.
+Qed.
+
 End Val.
+
+(* ------------------------------------------------------------------ *)
+(* statements over lists of transactions                                *)
+
+Lemma Forall_nth {A} (P : A -> Prop) l : Forall P l -> forall i x, nth_error l i = Some x -> P x.
+Proof. intros F i x H. rewrite Forall_forall in F. apply F. eapply nth_error_In; eauto. Qed.
+
+Theorem serializable level w0 txs sched :
+  Forall well_declared txs -> Forall no_world_read txs ->
+  complete (exec level w0 txs sched) = true ->
+  exists w, g_final (exec level w0 txs sched) = Some w /\
+    (forall a, w a = seq_world txs w0 a) /\
+    forall i, i < length txs -> g_rcts (exec level w0 txs sched) i = observed_seq txs w0 i.
+Proof.
+  intros W R. apply serializable_val.
+  - intros i t. apply (Forall_nth _ _ W).
+  - intros i t. apply (Forall_nth _ _ R).
+Qed.
+
+(* a transaction observes, per account, the value after all earlier
+   transactions in block order that write-lock that account *)
+Theorem sees_prefix level w0 txs sched :
+  Forall well_declared txs -> Forall no_world_read txs ->
+  complete (exec level w0 txs sched) = true ->
+  forall i t, nth_error txs i = Some t ->
+    g_rcts (exec level w0 txs sched) i = Some (snd (run_prog (tx_prog t) (prefix_view txs w0 i))).
+Proof.
+  intros W R C i t Ht. destruct (serializable level w0 txs sched W R C) as (w & _ & _ & Rc).
+  assert (Hi : i < length txs) by (apply nth_error_Some; congruence).
+  rewrite (Rc i Hi). unfold observed_seq. rewrite Ht. f_equal.
+  apply run_prog_ext. intro a. symmetry. apply prefix_view_eq; [|lia].
+  intros j tj. apply (Forall_nth _ _ W).
+Qed.
+
+(* until executeTxsConcurrent has returned some goroutine can take a step *)
+Theorem no_deadlock level w0 txs sched :
+  level <> 0 -> Forall well_declared txs ->
+  complete (exec level w0 txs sched) = false ->
+  exists a, In a (actors txs) /\ can_step txs (exec level w0 txs sched) a = true.
+Proof.
+  intros L W C. unfold exec in *.
+  assert (Hwd : forall i t, nth_error txs i = Some t -> well_declared t) by (intros i t; apply (Forall_nth _ _ W)).
+  destruct (run_inv13 txs Hwd sched _ (init_inv1 txs level w0) (init_inv3 txs level w0 L)) as (I & I3).
+  apply no_deadlock_inv; auto.
+Qed.
+
+(* ------------------------------------------------------------------ *)
+(* the world READ lock: not serializable                                *)
+
+Local Open Scope Z_scope.
+
+Definition w_init : world := fun a => match a with 1%nat => 5 | 2%nat => 7 | _ => 0 end.
+
+(* T0 adds 1 to account 1; T1 holds the world READ lock and reads account 2;
+   T2 adds 3 to account 2; T3 reads account 3 *)
+Definition wr_txs : list tx := [
+  mkTx [(LAcct 1%nat, LWrite)] (compile [IDo (SAdd 1%nat 1)] []);
+  mkTx [(LWorld, LRead)] (compile [IDo (SRead 2%nat)] []);
+  mkTx [(LAcct 2%nat, LWrite)] (compile [IDo (SAdd 2%nat 3)] []);
+  mkTx [(LAcct 3%nat, LRead)] (compile [IDo (SRead 3%nat)] [])
+].
+
+(* the dispatcher prepares and spawns T0, T1, T2 (it is then blocked in
+   ec.Ready() at level 3, or simply slow); T2 runs and commits; T0 runs and
+   commits; only now can T1 take its base snapshot — of a world state that
+   already contains T2's write; T1 runs; T3 is dispatched and runs; return *)
+Definition wr_sched : list actor :=
+  repeat ADisp 6 ++ repeat (AWorker 2) 5 ++ repeat (AWorker 0) 5 ++ repeat (AWorker 1) 4 ++
+  repeat ADisp 2 ++ repeat (AWorker 3) 4 ++ [ADisp].
+
+Lemma compile_well_declared locks is :
+  forallb (instr_ok (mkTx locks (compile is []))) is = true -> well_declared (mkTx locks (compile is [])).
+Proof. intro H. unfold well_declared. cbn. apply compile_touches. exact H. Qed.
+
+Lemma wr_txs_well_declared : Forall well_declared wr_txs.
+Proof. repeat (apply Forall_cons; [apply compile_well_declared; reflexivity|]). apply Forall_nil. Qed.
+
+Theorem world_read_refuted :
+  Forall well_declared wr_txs /\
+  complete (exec 3 w_init wr_txs wr_sched) = true /\
+  observed_seq wr_txs w_init 1 = Some [7] /\
+  g_rcts (exec 3 w_init wr_txs wr_sched) 1 = Some [10].
+Proof.
+  split; [exact wr_txs_well_declared|]. split; [|split]; vm_compute; reflexivity.
+Qed.
+
+(* ------------------------------------------------------------------ *)
+(* non-vacuity: the hypotheses of the theorems are met by a block with
+   real conflicts (two transfers over a shared account, a reader of it, a
+   world WRITE lock in the middle), run to completion under a schedule that
+   starts the transactions in reverse order                              *)
+
+Definition ex_txs : list tx := [
+  mkTx [(LAcct 1%nat, LWrite); (LAcct 2%nat, LWrite)] (compile [IDo (SXfer 1%nat 2%nat 3)] []);
+  mkTx [(LAcct 2%nat, LRead)] (compile [IDo (SRead 2%nat)] []);
+  mkTx [(LWorld, LWrite)] (compile [IGuard 2%nat 8 (SAdd 3%nat 4); IDo (SRead 1%nat)] []);
+  mkTx [(LAcct 2%nat, LWrite); (LAcct 3%nat, LWrite)] (compile [IDo (SXfer 2%nat 3%nat 20); IDo (SRead 3%nat)] [])
+].
+
+Definition ex_sched : list actor :=
+  repeat ADisp 8 ++
+  concat (repeat [AWorker 3; AWorker 2; AWorker 1; AWorker 0] 40) ++ [ADisp].
+
+Example ex_hypotheses : Forall well_declared ex_txs /\ Forall no_world_read ex_txs.
+Proof.
+  split.
+  - repeat (apply Forall_cons; [apply compile_well_declared; reflexivity|]). apply Forall_nil.
+  - repeat (apply Forall_cons; [unfold no_world_read; vm_compute; discriminate|]). apply Forall_nil.
+Qed.
+
+Example ex_complete : complete (exec 4 w_init ex_txs ex_sched) = true.
+Proof. vm_compute. reflexivity. Qed.
+
+(* what the theorem then says about this run (also checked by computation) *)
+Example ex_result :
+  g_rcts (exec 4 w_init ex_txs ex_sched) 3 = Some [0; 4] /\
+  observed_seq ex_txs w_init 1 = Some [10].
+Proof. split; vm_compute; reflexivity. Qed.
+
+(* no_deadlock: a partial run of the same block *)
+Example ex_partial_can_step :
+  complete (exec 2 w_init ex_txs (repeat ADisp 3 ++ [AWorker 1])) = false.
+Proof. vm_compute. reflexivity. Qed.
